@@ -3862,8 +3862,10 @@ void lib_svt_encoder_send_error_exit(
     EbObjectWrapper      *eb_wrapper_ptr = NULL;
     EbBufferHeaderType    *output_packet;
 
+    // an empty packet header comes from the producer side of the output stream resource (the consumer side hands out
+    // finished packets to the application and would park this thread until one arrives)
     svt_get_empty_object(
-        enc_handle->output_stream_buffer_consumer_fifo_ptr,
+        enc_handle->scs_instance_array[0]->encode_context_ptr->stream_output_fifo_ptr,
         &eb_wrapper_ptr);
 
     output_packet            = (EbBufferHeaderType*)eb_wrapper_ptr->object_ptr;
